@@ -85,14 +85,14 @@ Print Assumptions C04_number_value.
     [sk_stmts] is the skeleton of a program: every position forgotten; the characters of string and
     number literals forgotten; names forgotten wherever they are content - table, alias, `as`,
     render and column names, quoted names, unquoted names that are not a bound name, a constant
-    (true/false/null) or a join alias - and kept where they are structure (function names, join
+    (true/false/null) or a join alias (these are replaced by one fixed name that is none of the
+    three) - and kept where they are structure (function names, join
     kinds, let names, references to bound names; the quoted flag is structure too).
     Two programs with the same skeleton compile alike, for any parameters: both are rejected, or
     both succeed with piece lists that agree piece by piece up to the payload of identifier, string
     and number pieces ([sh] forgets exactly that payload). *)
 From PQL Require Import Proofs.Payload.
 Theorem C04_same_structure_same_pieces : forall s1 s2 params ss1 ss2,
-  no_empty_let ss1 -> no_empty_let ss2 -> bound (map fst params) [] = false ->
   sk_stmts (map fst params) false ss1 = sk_stmts (map fst params) false ss2 ->
   match compile_stmts s1 params ss1, compile_stmts s2 params ss2 with
   | Ok a, Ok b => sh a = sh b
@@ -106,10 +106,10 @@ Print Assumptions C04_same_structure_same_pieces.
     have the same shapes one by one - same words and punctuation, and a quoted identifier, string
     or number token wherever the other text has one; so changing content changes exactly the
     corresponding tokens and can neither open a comment, close a quote nor start a clause.
-    ([no_empty_let]: no let statement binds the empty quoted name ``; F1 excluded as before.) *)
+    (F1 excluded as before.) *)
 Theorem C04_structure_independent_of_content : forall s1 s2 ss1 ss2 ps1,
   parse s1 = ParseOk ss1 -> parse s2 = ParseOk ss2 ->
-  Forall names_ok_stmt ss1 -> Forall names_ok_stmt ss2 -> no_empty_let ss1 -> no_empty_let ss2 ->
+  Forall names_ok_stmt ss1 -> Forall names_ok_stmt ss2 ->
   sk_stmts [] false ss1 = sk_stmts [] false ss2 ->
   compile [] s1 = COk ps1 ->
   exists ps2 ts1 ts2, compile [] s2 = COk ps2 /\
@@ -119,7 +119,7 @@ Proof. exact structure_independent_of_content. Qed.
 Print Assumptions C04_structure_independent_of_content.
 
 (** the program and its skeleton: one-sided form, from which the above follows *)
-Theorem C04_skeleton_compiles_alike : forall source source' params ss, no_empty_let ss -> bound (map fst params) [] = false ->
+Theorem C04_skeleton_compiles_alike : forall source source' params ss,
   res_sim (compile_stmts source params (sk_stmts (map fst params) false ss)) (compile_stmts source' params ss).
 Proof. exact compile_stmts_sk. Qed.
 Print Assumptions C04_skeleton_compiles_alike.
